@@ -120,7 +120,7 @@ func genLeaf(r *rand.Rand) *M {
 			m.Lit = pick(r, "linux", "posix", "x86_64", "cpython", "CPython", "Linux", "win32", "nt", "lin", "3.9", "6.9.10", "linux2", "LINUX", "java", "darwin", "x86", "Lin", "cpython3", "a b")
 		}
 		if r.Intn(12) == 0 { // any literal with any variable
-			m.Lit = pick(r, "3.9", "linux", "1.0", "x", "3.9.*", "a'b", "Linux", "posix", "3.9rc1")
+			m.Lit = pick(r, "3.9", "linux", "1.0", "x", "3.9.*", "a'b", "Linux", "posix", "3.9rc1", "a;b", "x]y[", "(z)", "1,2", ";", "<=>!~")
 		}
 	}
 	if strings.Contains(m.Lit, m.Q) {
